@@ -118,7 +118,7 @@ def check_C16(tier, seed):
     run_pipeline(res, binary, "random", gen_lines=gens.gen_nanos(rng, n), nshards=8 if tier == "quick" else 16)
     run_pipeline(res, binary, "ns-validation", gen_lines=gens.gen_ns_validation(rng, 2000 if tier == "quick" else 40000), nshards=4)
     run_pipeline(res, binary, "through-zones", gen_lines=gens.gen_nanos_zone(rng, 60 if tier == "quick" else 1500), nshards=4)
-    res.notes["rule"] = "vectors: every count within R of 17 anchors (multiples of 1e9, i64/i128 ends, date-time range ends); events: seeded i128 counts (log-uniform, anchors, zero crossings) through the three from_total_nanoseconds constructors"
+    res.notes["rule"] = "vectors: every count within R of 19 anchors (multiples of 1e9, i64/i128 ends of the seconds and of the count itself, date-time range ends); events: seeded i128 counts (log-uniform, anchors incl. the 2^31..2^64 word sizes of the count, zero crossings) through the three from_total_nanoseconds constructors; counts at the range ends through fixed-offset zones"
     os.remove(vec)
     return res.finish()
 
@@ -488,7 +488,8 @@ def check_C08(tier, seed):
     res.notes["corpus_files_decoded"] = len(files)
     run_pipeline(res, binary, "corpus", gen_lines=gens.gen_corpus_decode(rng, files), nshards=12 if q else 16, min_events=5)
     run_pipeline(res, binary, "corpus-mutations", gen_lines=gens.gen_corpus_mutations(rng, files, 6 if q else 20), nshards=12 if q else 16, min_events=30)
-    res.notes["rule"] = "vectors: small zones written by the TLA+ encoder in v1/v2/v3 (32-bit block of v2+ holds a different zone; shared-suffix and empty designations; all indicator vectors; plain and extended footers) with Decode(Encode(z)) = z model-checked, plus every truncation and single-byte corruption of a share of them with the spec decoder's verdict; events: real tzdata 2025b files (posix and right/ trees) decoded by the TLA+ decoder inside TLC and compared with the crate's zone, and single-field corruptions of real files"
+    run_pipeline(res, binary, "synthesised", gen_lines=gens.gen_synth_files(rng, 150 if q else 3000), nshards=12 if q else 16, min_events=10)
+    res.notes["rule"] = "vectors: small zones written by the TLA+ encoder in v1/v2/v3 (32-bit block of v2+ holds a different zone; shared-suffix and empty designations; all indicator vectors; plain and extended footers) with Decode(Encode(z)) = z model-checked, plus every truncation and single-byte corruption of a share of them with the spec decoder's verdict; events: real tzdata 2025b files (posix and right/ trees) decoded by the TLA+ decoder inside TLC and compared with the crate's zone, and single-field corruptions of real files; synthesised well-formed files of the shapes the corpus lacks (designation tables beyond 256 bytes with names crossing byte 255, suffix designations, up to 200 types, 32-bit blocks of v2+ files that are not valid zones of their own, all indicator combinations, leap tables) and their mutations"
     return res.finish()
 
 
